@@ -77,6 +77,13 @@ Definition validate (H : bytes -> bytes) (ttl_ns now_ns : Z) (cookie : bytes) (t
   | _ => false
   end.
 
+(* The property constrains ACCEPTANCE ("only for a cookie this BNG issued ... for the same MAC address").  An
+   implementation may additionally reject tuples that are no Ethernet tuples (MAC not 6 bytes): for those the
+   verdict is admissible when it accepts no more than [validate]; for 6-byte MACs it must equal [validate]. *)
+Definition ethernet_tuple (t : tuple) : bool := let '(mac, _, _) := t in Nat.eqb (length mac) 6.
+Definition admissible_verdict (t : tuple) (model impl : bool) : bool :=
+  if ethernet_tuple t then Bool.eqb impl model else implb impl model.
+
 (* A history on one CookieManager.  Its state is (secret, ttl); the secret is fixed inside H, so
    the threaded state is the lifetime only — Validate and Generate neither read nor write anything else. *)
 Inductive cm_op :=
@@ -279,6 +286,20 @@ Definition norm_next (v : variant) (n : N) : N :=
 Definition allocate (v : variant) (s : st) : result (N * N) :=
   let n0 := norm_next v (next s) in alloc_loop alloc_fuel (id_used v s) n0 n0.
 
+(* WHICH free id a PADR gets is not constrained by the property.  A PADR therefore carries how the id is
+   resolved: [Policy] = /repo HEAD's sequential counter (allocate); [Chose c] / [Refused] = the answer observed on
+   the implementation, accepted when admissible: c is in 1..65535 and neither indexed nor reserved; a refusal only
+   when no such id exists.  The theorems quantify over every choice. *)
+Inductive choice := Policy | Refused | Chose (c : N).
+Definition some_id_free (v : variant) (s : st) : bool :=
+  match alloc_loop alloc_fuel (id_used v s) 1 1 with Ok (0%N, _) => false | Ok _ => true | _ => false end.
+Definition alloc_choice (v : variant) (s : st) (oc : choice) : result (N * N) :=   (* (id or 0, next') *)
+  match oc with
+  | Policy => allocate v s
+  | Refused => if some_id_free v s then Err 9 else Ok (0%N, next s)
+  | Chose c => if N.ltb 0 c && N.ltb c 65536 && negb (id_used v s c) then Ok (c, next s) else Err 9
+  end.
+
 (* environment of one run: HMAC, cookie lifetime, clock, subscriber-group matcher *)
 Record env := {
   e_H : bytes -> bytes;
@@ -290,8 +311,8 @@ Record env := {
 
 Inductive op :=
 | PADI (t : tuple)
-| PADR (t : tuple) (payload : bytes)            (* a handlePADR that runs without interleaving *)
-| PBEGIN (t : tuple) (payload : bytes)          (* handlePADR up to and including allocateSessionID *)
+| PADR (t : tuple) (payload : bytes) (oc : choice)   (* a handlePADR that runs without interleaving *)
+| PBEGIN (t : tuple) (payload : bytes) (oc : choice) (* handlePADR up to and including allocateSessionID *)
 | PCOMMIT (uid : N)                             (* ... its addToIndexes + PADS *)
 | PADT (t : tuple) (sid : N)
 | SESS (t : tuple) (sid : N)
@@ -317,15 +338,17 @@ Definition owner_ok (v : variant) (x : sess) (t : tuple) : bool :=
 
 (* handlePADR up to the point where the session object exists but is not indexed.
    None = out of fuel; Some (s', None) = dropped; Some (s', Some x) = x built (counter advanced) *)
-Definition padr_begin (v : variant) (e : env) (s : st) (t : tuple) (payload : bytes) : option (st * option sess) :=
+Definition padr_begin (v : variant) (e : env) (s : st) (t : tuple) (payload : bytes) (oc : choice)
+  : option (st * option sess) :=
   match parse_tags payload with
   | Ok tg =>
       if negb (validate (e_H e) (e_ttl e) (e_now_ns e) (t_cookie tg) t) then Some (s, None)
       else if negb (e_grp e t) then Some (s, None)
-      else match allocate v s with
+      else match alloc_choice v s oc with
            | Ok (sid, n') =>
                let s1 := set_next s n' in
-               if v_sid_guard v && N.eqb sid 0 then Some (s1, None)      (* no free id: no session *)
+               if (v_sid_guard v || negb (match oc with Policy => true | _ => false end)) && N.eqb sid 0
+               then Some (s1, None)                                      (* no free id: no session *)
                else Some (bump_ctr s1, Some {| s_uid := ctr s; s_sid := sid; s_tup := t |})
            | _ => None
            end
@@ -346,14 +369,14 @@ Definition step (v : variant) (e : env) (s : st) (o : op) : option (st * out) :=
   match o with
   | PADI t =>
       if e_grp e t then Some (s, OPado (generate (e_H e) (e_now_s e) t)) else Some (s, ONone)
-  | PADR t payload =>
-      match padr_begin v e s t payload with
+  | PADR t payload oc =>
+      match padr_begin v e s t payload oc with
       | Some (s1, Some x) => Some (add_indexes None x s1, OPads (s_sid x) (s_uid x))
       | Some (s1, None) => Some (s1, ONone)
       | None => None
       end
-  | PBEGIN t payload =>
-      match padr_begin v e s t payload with
+  | PBEGIN t payload oc =>
+      match padr_begin v e s t payload oc with
       | Some (s1, Some x) => Some (set_pend s1 (pend s1 ++ [x]), OPend (s_sid x) (s_uid x))
       | Some (s1, None) => Some (s1, ONone)
       | None => None
